@@ -22,7 +22,7 @@ use std::collections::{BTreeMap, HashMap};
 
 pub fn run(ctx: &Ctx) -> i32 {
     let mon = Mon::new();
-    let n = ctx.tier.pick(1500, 10000);
+    let n = ctx.tier.pick(1500, 40000);
     par_cases(ctx, &mon, "pair", n, |cc, rng, l| {
         let cfg = if rng.chance(1, 2) { Cfg::Wa } else { Cfg::Exp };
         let size = match cc.idx % 6 {
@@ -32,7 +32,7 @@ pub fn run(ctx: &Ctx) -> i32 {
         };
         with_cfg!(cfg, TC, { block_on(run_pair::<TC>(cc, rng, l, size)) })
     });
-    let h = ctx.tier.pick(240, 1200);
+    let h = ctx.tier.pick(240, 4000);
     par_cases(ctx, &mon, "lists", h, |cc, rng, l| {
         let mut case = HistCase::random(rng, 10, 10, 6, false);
         case.cache = CacheOpt::None;
